@@ -18,6 +18,7 @@ CONSTANTS
   XParams = {}
   XVals = {}
   TplKinds = {}
+  BUrls = {}
   NumParams = {}
   StrParams = {}
   SupVals = {}
